@@ -28,8 +28,8 @@ namespace drv {
 
 struct ForBody {
     void operator()(const tbb::blocked_range<int>&) const {}
-    void operator()(const tbb::blocked_range2d<int, long>&) const {}
-    void operator()(const tbb::blocked_range3d<int, long, short>&) const {}
+    void operator()(const tbb::blocked_range2d<int, int>&) const {}
+    void operator()(const tbb::blocked_range3d<int, int, int>&) const {}
     void operator()(const tbb::blocked_nd_range<int, 4>&) const {}
 };
 
@@ -56,8 +56,8 @@ void loops_with(P& p) {
     tbb::task_group_context ctx;
     tbb::parallel_for(tbb::blocked_range<int>(0, 100, 3), ForBody(), p);
     tbb::parallel_for(tbb::blocked_range<int>(0, 100, 3), ForBody(), p, ctx);
-    tbb::parallel_for(tbb::blocked_range2d<int, long>(0, 10, 2, 0L, 10L, 2), ForBody(), p);
-    tbb::parallel_for(tbb::blocked_range3d<int, long, short>(0, 10, 2, 0L, 10L, 2, (short)0, (short)5, 1), ForBody(), p);
+    tbb::parallel_for(tbb::blocked_range2d<int, int>(0, 10, 2, 0, 10, 2), ForBody(), p);
+    tbb::parallel_for(tbb::blocked_range3d<int, int, int>(0, 10, 2, 0, 10, 2, 0, 5, 1), ForBody(), p);
     tbb::parallel_for(tbb::blocked_nd_range<int, 4>({0, 4}, {0, 4}, {0, 4}, {0, 4}), ForBody(), p);
     tbb::parallel_for(0, 100, 2, [](int) {}, p);
     SumBody sb;
